@@ -204,4 +204,15 @@ PROPS = {
         assumptions=["z3 sound", "PyVC encoding", "A-DB: sqlite commit is atomic and durable; SELECT returns the committed row", "codec round trip (bounded)", "the row was committed from a state satisfying Inv(Mailbox)"],
         not_decided="flags/attributes/list across restart beyond the bounded oracle; SPECIAL-USE re-creation",
     ),
+    "C17": dict(
+        design_ref="DESIGN.md 7 C17",
+        technique="contract-based deductive verification (PyVC + z3 strings) of the INBOX guard and name handling at the head of Mailbox.delete; namespace-invariant oracle on the real server over seeded histories (bounded)",
+        category="other",
+        text="Proved for every name a client can send: Mailbox.delete never gets past its guard with a name that equals INBOX ignoring case, in any quoting (after the recorded fix; before it, DELETE \"INBOX\" emptied the inbox), "
+             "and the name it then works with is confined (C09). Everything else the property says about LIST/LSUB following the CREATE/DELETE/RENAME/SUBSCRIBE history is checked only by the bounded oracle: after every step of 40-200 seeded histories "
+             "INBOX is listed, no name is listed twice, \\HasChildren holds exactly when an existing mailbox lies below, a deleted leaf is gone, RENAME moves the subtree with its UIDs and leaves nothing under the old name, and a refused command changes neither the listing nor the directory tree.",
+        note="Narrow deductive part: create/rename outcome shapes, do_list's attribute recomputation (DESIGN F37), the LIKE-based rename query (F38), the wildcard translation and LIST-EXTENDED are not under contract.",
+        assumptions=["z3/cvc5 sound", "PyVC level-1 strings (str.lower() compared with a constant is decided as a case-insensitive match)"],
+        not_decided="(b)-(g) beyond the bounded oracle",
+    ),
 }
